@@ -62,6 +62,7 @@ type ContentDef struct {
 	SubjAlg  string // algorithm the subject is referenced with
 	AT       string // declared artifactType (short) or ""
 	Annot    bool   // carries annotations
+	LieMT    bool   // index: the child descriptors declare the wrong media type (image as index and vice versa)
 	Big      int    // > 0: an additional annotation of that many bytes (a descriptor that does not fit on a small referrers page)
 	NoMT     bool   // omit the mediaType field in the body
 	Pad      int    // trailing whitespace appended to the body
@@ -365,6 +366,13 @@ func (c *Catalogue) realise(d *ContentDef, rng *rand.Rand) ([]byte, error) {
 		m.Manifests = []types.Descriptor{}
 		for _, ch := range d.Children {
 			cd := c.desc(ch, d.RefAlg, mtLong[c.C[ch].Def.MT])
+			if d.LieMT {
+				if c.C[ch].Def.Kind == "image" {
+					cd.MediaType = types.MediaTypeOCI1ManifestList
+				} else {
+					cd.MediaType = types.MediaTypeOCI1Manifest
+				}
+			}
 			if d.Evil > 0 {
 				cd.Digest = evilDigest(cd.Digest, d.Evil)
 			}
